@@ -554,3 +554,100 @@ func randomString(r *gen.Rand) string {
 	}
 	return b.String()
 }
+
+// ---------------------------------------------------------------- duration expressions (text)
+
+// durExprCorpus puts a duration expression into every position the grammar allows (offset of an
+// instant selector, of a range selector, of a subquery; range of a matrix selector; subquery
+// range and step), with and without @, in every form (step(), range(), min_of/max_of, arithmetic,
+// parenthesised, unary).
+var durExprForms = []string{"step()", "range()", "min_of(1m, step())", "max_of(range(), 30s)", "1m + 30s", "step() * 2", "(5m)", "(step())",
+	"-(5m)", "+(5)", "-step()", "-min_of(1m, 2m)", "1m ^ 2", "10m % 3m", "range() / 2", "(1m + step()) * 2", "-(-5m)", "2 * 3", "5"}
+
+func durExprCorpus() []string {
+	var out []string
+	for _, d := range durExprForms {
+		out = append(out,
+			"foo offset "+d,
+			"foo @ 10 offset "+d,
+			"foo offset "+d+" @ start()",
+			"foo[5m] offset "+d,
+			"foo[5m] @ end() offset "+d,
+			"rate(foo{a=\"b\"}[5m] offset "+d+")",
+			"foo[5m:1m] offset "+d,
+			"(foo + bar)[5m:] @ 10 offset "+d,
+			"foo["+d+"]",
+			"foo["+d+"] @ 10 offset 1m",
+			"foo["+d+"] offset "+d,
+			"foo["+d+":]",
+			"foo["+d+":1m]",
+			"foo[5m:"+d+"]",
+			"foo["+d+":"+d+"] @ start() offset "+d,
+			"sum(foo)[1h:"+d+"] offset "+d,
+		)
+	}
+	return out
+}
+
+func durExprText(r *gen.Rand, d int) string {
+	if d <= 0 || r.Chance(1, 3) {
+		return gen.Pick(r, []string{"5m", "1h30m", "30s", "1ms", "30", "1.5", "0x10", "step()", "range()", "1d", "2"})
+	}
+	a, b := durExprText(r, d-1), durExprText(r, d-1)
+	switch r.Intn(12) {
+	case 0:
+		return "min_of(" + a + ", " + b + ")"
+	case 1:
+		return "max_of(" + a + "," + b + ")"
+	case 2:
+		return "(" + a + ")"
+	case 3:
+		return "-" + a
+	case 4:
+		return "+" + a
+	case 5:
+		return "-(" + a + ")"
+	case 6:
+		return "+(" + a + ")"
+	default:
+		return a + gen.Pick(r, []string{" + ", " - ", " * ", " / ", " % ", " ^ ", "+", "*"}) + b
+	}
+}
+
+func durExprQuery(r *gen.Rand) string {
+	d := func() string { return durExprText(r, r.Intn(3)) }
+	sel := gen.Pick(r, []string{"foo", "foo{a=\"b\"}", "{__name__=\"x\"}", "foo:bar"})
+	at := gen.Pick(r, []string{"", "", " @ 10", " @ start()", " @ end()", " @ -1.5"})
+	off := ""
+	if r.Chance(2, 3) {
+		off = " offset " + d()
+	}
+	mods := at + off
+	if r.Bool() {
+		mods = off + at
+	}
+	var q string
+	switch r.Intn(6) {
+	case 0:
+		q = sel + mods
+	case 1:
+		q = sel + "[" + d() + "]" + mods
+	case 2:
+		q = sel + "[" + d() + ":" + d() + "]" + mods
+	case 3:
+		q = sel + "[" + d() + ":]" + mods
+	case 4:
+		q = "(" + sel + " + bar)[" + d() + ":" + d() + "]" + mods
+	default:
+		q = sel + "[5m]" + mods
+	}
+	switch r.Intn(5) {
+	case 0:
+		q = "rate(" + q + ")"
+	case 1:
+		q = q + " + on(a) bar offset " + d()
+	case 2:
+		q = "sum by (a) (" + q + ")"
+	}
+	return q
+}
